@@ -72,28 +72,31 @@ fn nal_type(codec: VCodec, u: &[u8]) -> u8 {
 }
 
 fn judge_nal_frame(codec: VCodec, units: &[Vec<u8>], variant: usize, order: (u64, u64), t: &mut Tally) {
-    // variant: bit0 start-code phase, bit1 leading garbage, bit2 trailing zeros
+    // variants 0..8: bit0 start-code phase, bit1 leading garbage, bit2 trailing zeros;
+    // variants 8..12: an empty unit (a bare start code directly followed by the next start code)
+    // in front of unit 0 or 1, in either start-code phase
     let mut frame = vec![];
-    if variant & 2 != 0 {
+    if variant < 8 && variant & 2 != 0 {
         frame.extend_from_slice(&[0x09, 0x30]);
     }
-    let mut a = annexb(units, true);
-    if variant & 1 != 0 && !units.is_empty() {
-        // shift the 3/4-byte alternation by one unit
-        a = vec![];
-        for (i, u) in units.iter().enumerate() {
-            if i % 2 == 0 {
-                a.extend_from_slice(&[0, 0, 1]);
-            } else {
-                a.extend_from_slice(&[0, 0, 0, 1]);
-            }
-            a.extend_from_slice(u);
+    let phase3 = if variant < 8 { variant & 1 != 0 } else { (variant - 8) / 2 == 0 };
+    let empty_before = if variant < 8 { usize::MAX } else { (variant - 8) % 2 };
+    for (i, u) in units.iter().enumerate() {
+        let short = (i % 2 == 0) == phase3;
+        if i == empty_before {
+            frame.extend_from_slice(if short { &[0, 0, 1][..] } else { &[0, 0, 0, 1][..] });
         }
+        frame.extend_from_slice(if short { &[0, 0, 1][..] } else { &[0, 0, 0, 1][..] });
+        frame.extend_from_slice(u);
     }
-    frame.extend(a);
-    if variant & 4 != 0 {
+    if variant < 8 && variant & 4 != 0 {
         frame.extend_from_slice(&[0, 0]);
     }
+    judge_nal_bytes(codec, &frame, if variant < 8 { variant & 1 == 0 } else { variant % 2 == 0 }, order, t);
+}
+
+fn judge_nal_bytes(codec: VCodec, frame: &[u8], fast: bool, order: (u64, u64), t: &mut Tally) {
+    let frame = frame.to_vec();
     let (ty_sps, ty_pps, ty_vps) = if codec == VCodec::H264 { (7, 8, 255) } else { (33, 34, 32) };
     // The parameter sets "taken from the first keyframe" are the units as C14 defines them: the
     // byte runs between start codes of the submitted frame (a run before the end of input keeps
@@ -103,9 +106,9 @@ fn judge_nal_frame(codec: VCodec, units: &[Vec<u8>], variant: usize, order: (u64
     let first = |ty: u8| split.iter().find(|u| nal_type(codec, u) == ty).cloned();
     let (sps, pps, vps) = (first(ty_sps), first(ty_pps), first(ty_vps));
     let carries = sps.is_some() && pps.is_some() && (codec == VCodec::H264 || vps.is_some());
-    let cfg = Cfg { width: 1920, height: 1080, ..Cfg::basic(codec, None, variant & 1 == 0) };
+    let cfg = Cfg { width: 1920, height: 1080, ..Cfg::basic(codec, None, fast) };
     t.evaluations += 1;
-    let case = || json!({"engine": "E2-c07-nal", "codec": codec, "frame": hex(&frame)});
+    let case = || json!({"engine": "E2-c07-nal", "codec": codec, "frame": hex(&frame), "fast": fast});
     match mux_first_frame(&cfg, &frame) {
         Err(e) => t.violation("C07/nal/panic-or-finish-failure", order, || format!("{codec:?} frame {}: {e}", hex(&frame)), case),
         Ok(None) => {
@@ -908,8 +911,8 @@ pub fn check(ctx: &Ctx) -> i32 {
             let alpha = nal_alphabet(*codec);
             for (k, l) in lists.iter().enumerate() {
                 let units: Vec<Vec<u8>> = l.iter().map(|&i| alpha[i].1.clone()).collect();
-                for variant in 0..8 {
-                    judge_nal_frame(*codec, &units, variant, (idx as u64, (k * 8 + variant) as u64), t);
+                for variant in 0..12 {
+                    judge_nal_frame(*codec, &units, variant, (idx as u64, (k * 12 + variant) as u64), t);
                 }
             }
         }
@@ -997,7 +1000,7 @@ pub fn check(ctx: &Ctx) -> i32 {
         &tally,
         Meta {
             level: "exploration",
-            rule: format!("H.264/H.265: every first keyframe that is a sequence of <= {max_units} NAL units over {{SPSa, SPSb, PPSa, PPSb, (VPSa, VPSb), IDR, SEI, AUD, non-IDR}} x 8 framings (start-code phase, leading garbage, trailing zeros), muxed, finished, and the avcC/hvcC compared with the first parameter sets; keyframes whose first set of one type is 65535 / 65536 / 70000 bytes long with a normal second one of that type before or after it (refused, or the first one carried); AV1: {n_av1} syntactically valid sequence headers produced by a spec-5.5 bit writer (branch product of the header syntax{}) x {LAYOUTS} OBU layouts through extract_av1_config, and through muxer+finish+reader for {}; VP9: {n_vp9} headers of the accepted form x 5 continuations (compressed data, none, single flag-like bytes); audio: {n_audio} (codec, rate, channels) combinations; fragmented init segments: {n_init} builder/FragmentConfig combinations (parameter-set lengths 0, 1, 4, 255, 256; three dimensions); histories: per codec 7 kinds of first attempt (negative, NaN, overflowing composition offset, not a keyframe, infinite DTS, PTS far before DTS, none) x 4^3 configuration variants for (attempt, next keyframe, later keyframe), sample entry compared with the one of the first accepted keyframe alone. Expected values are known by construction (the generator wrote them). Distinct by the resulting sample entry bytes.", if ctx.thorough { ", full product" } else { ", every pair of sections in full product" }, if ctx.thorough { "every header" } else { "a section-default subset" }),
+            rule: format!("H.264/H.265: every first keyframe that is a sequence of <= {max_units} NAL units over {{SPSa, SPSb, PPSa, PPSb, (VPSa, VPSb), IDR, SEI, AUD, non-IDR}} x 12 framings (start-code phase, leading garbage, trailing zeros; an empty unit in front of the first or second unit in either phase), muxed, finished, and the avcC/hvcC compared with the first parameter sets; keyframes whose first set of one type is 65535 / 65536 / 70000 bytes long with a normal second one of that type before or after it (refused, or the first one carried); AV1: {n_av1} syntactically valid sequence headers produced by a spec-5.5 bit writer (branch product of the header syntax{}) x {LAYOUTS} OBU layouts through extract_av1_config, and through muxer+finish+reader for {}; VP9: {n_vp9} headers of the accepted form x 5 continuations (compressed data, none, single flag-like bytes); audio: {n_audio} (codec, rate, channels) combinations; fragmented init segments: {n_init} builder/FragmentConfig combinations (parameter-set lengths 0, 1, 4, 255, 256; three dimensions); histories: per codec 7 kinds of first attempt (negative, NaN, overflowing composition offset, not a keyframe, infinite DTS, PTS far before DTS, none) x 4^3 configuration variants for (attempt, next keyframe, later keyframe), sample entry compared with the one of the first accepted keyframe alone. Expected values are known by construction (the generator wrote them). Distinct by the resulting sample entry bytes.", if ctx.thorough { ", full product" } else { ", every pair of sections in full product" }, if ctx.thorough { "every header" } else { "a section-default subset" }),
             bound: format!("<= {max_units} NAL units per keyframe; AV1 field domains as listed in DESIGN.md"),
             exhaustive: true,
             assumptions: vec!["the AV1 bit writer (oracle/src/frames.rs) follows AV1 spec 5.5; it is the source of truth for expected fields".into(), "vpcC values are judged positionally when the record is in muxide's 8-byte layout (the layout itself is C19's finding)".into()],
@@ -1021,7 +1024,7 @@ pub fn replay(case: &Value) -> i32 {
                 Ok(Some((_, m))) => println!("accepted; sample entry: {:?}", first_entry(&m, true).map(|e| &e.cfg)),
                 o => println!("outcome: {:?}", o.map(|x| x.is_some())),
             }
-            judge_nal_frame(codec, &units, 0, (0, 0), &mut t);
+            judge_nal_bytes(codec, &frame, case["fast"].as_bool().unwrap_or(true), (0, 0), &mut t);
         }
         Some("E2-c07-history") => {
             let codec: VCodec = serde_json::from_value(case["codec"].clone()).unwrap();
